@@ -1,6 +1,9 @@
 /* Harnesses over src/process.c (woven: contracts/process.c.spec). */
 #include "verif.h"
 #include "src/process.c"
+#include "c12_undef.h"
+int verif_lock_ok(int guard) { return 1; }     /* xread/xwrite/work(): run before any thread of the run exists; the thread procedures are checked in h_proc.c */
+
 #include "process_contracts.h"
 
 /* ---- pthread primitives: sequential monitor model (DESIGN 1.4).  A mutex is a ghost flag; taking it when
